@@ -20,7 +20,7 @@ RULE = (
     "both a warning and a non-warning boundary case occurred; distinct = canonical spec hash (with limits)"
 )
 REQUIRED = ["warn.cell", "warn.boundary_equal", "warn.boundary_ulp", "warn.unlisted_phase_empty", "warn.subsystem",
-            "warn.total", "warn.limits_report"]
+            "warn.total", "warn.limits_report", "warn.default_limit_exceeded"]
 SIZES = {"quick": 170, "thorough": 1300}
 ASSUMPTIONS = ["quantities are the reported cells of the same row (so exact-boundary cases are decidable)",
                "rectifiers are not given phase configurations (the property does not say whether they mute warnings)"]
@@ -73,6 +73,10 @@ def gen(rng, i, tier):
         max_depth=rng.choice([3, 5]), dead=rng.choice([0.0, 0.2]), phase_conf=0.5, rt=0.6, loss_flag=0.3,
         groups=0.2, rails=rng.choice([0.0, 0.3]),
     )
+    if rng.random() < 0.2:
+        # megawatt-class systems: reported quantities exceed the DEFAULT limits (1e6), so components without any
+        # configured limit must warn too
+        spec = G.scale_currents(spec, 10 ** rng.uniform(4, 7))
     return {"spec": spec, "lseed": rng.randrange(1 << 30), "ta": rng.choice([25.0, -10.0, 85.0])}
 
 
@@ -209,6 +213,8 @@ def run(ctx, case):
                 elif mode.startswith("ulp"):
                     ctx.check("warn.boundary_ulp", (key in got) == (key in exp), dict(det, key=key, mode=mode, quantity=q[key]))
             warned[n] = bool(got)
+            if got and not c.get("limits"):
+                ctx.ev("warn.default_limit_exceeded")
             if got:
                 saw_warn = True
                 for t in got:
